@@ -117,6 +117,61 @@ func c13Case(c *core.Ctx, id string) {
 		twinDir := filepath.Join(base, "b")
 		os.RemoveAll(twinDir)
 		pj.CopyDir(s.Dir, twinDir)
+		// now and then, first a dry run under a fault: a directory the up-to-date check looks into (the directory of a
+		// generated file, a source directory) is for the moment a regular file, so that check fails with an error
+		// instead of answering. Such a dry run may fail, but it is a dry run all the same: no body, no change on disk.
+		if r.IntN(5) == 0 {
+			var dirs []string
+			for _, l := range e.Closure(target) {
+				if t := e.P.Target(l); t != nil {
+					if t.Gen != "" {
+						dirs = append(dirs, filepath.Join(s.Root, t.Pkg, filepath.Dir(t.Gen)))
+					}
+					for _, src := range t.Sources {
+						dirs = append(dirs, filepath.Join(s.Root, t.Pkg, src))
+					}
+				}
+			}
+			sort.Strings(dirs)
+			var cand []string
+			for _, d := range dirs {
+				if st, err := os.Stat(d); err == nil && st.IsDir() && d != s.Root {
+					cand = append(cand, d)
+				}
+			}
+			if len(cand) > 0 {
+				d := cand[r.IntN(len(cand))]
+				held := d + ".verif-held"
+				if os.Rename(d, held) == nil {
+					os.WriteFile(d, []byte("in the way\n"), 0o644)
+					e.S.SetFailing(nil)
+					from := e.S.LogLen()
+					recs0 := pj.Records(s.Root)
+					fd := pj.Build(pj.BuildReq{Root: s.Root, Target: target, Dry: true, Always: always, Args: e.P.Args, HashAround: true})
+					os.Remove(d)
+					os.Rename(held, d)
+					c.Count("dry_runs_under_a_fault", 1)
+					if fd.RunErr != "" {
+						c.Count("dry_runs_under_a_fault_that_failed", 1)
+					}
+					rel, _ := filepath.Rel(s.Root, d)
+					if ents := e.S.ReadLog(from); len(ents) > 0 {
+						viol("dry-run-executed-a-body", map[string]any{"target": target, "log": ents, "fault": rel + " is a regular file"})
+						return
+					}
+					if fd.LoadErr == "" && len(fd.Changed) > 0 {
+						viol("dry-run-changed-files", map[string]any{"target": target, "changed": fd.Changed, "fault": rel + " is a regular file", "error": fd.RunErr})
+						return
+					}
+					for rr, after := range pj.Records(s.Root) {
+						if before, ok := recs0[rr]; ok && fd.LoadErr == "" && (before.Rerun != after.Rerun || before.Stamp != after.Stamp || fmt.Sprint(before.Dependencies) != fmt.Sprint(after.Dependencies)) {
+							viol("dry-run-changed-persisted-build-state", map[string]any{"target": target, "record": rr, "before": string(before.Raw), "after": string(after.Raw), "fault": rel + " is a regular file", "error": fd.RunErr})
+							return
+						}
+					}
+				}
+			}
+		}
 		// dry run, hashing the tree around Run
 		e.S.SetFailing(failing)
 		from := e.S.LogLen()
